@@ -43,6 +43,10 @@ def linspace_facts():
             z3.ForAll([n], z3.Implies(n >= 2, z3.And(lin_t(0, n) == 0, lin_t(n - 1, n) == 1)), patterns=[lin_t(0, n)])]
 
 
+NUM_CACHE_FIELDS = ("_DesignSpace__norm_data_is_computed", "_DesignSpace__lower_bounds_array", "_DesignSpace__upper_bounds_array", "_norm_factor",
+                    "_norm_factor_inv", "_DesignSpace__norm_inds", "_DesignSpace__integer_components", "_DesignSpace__no_integer", "_DesignSpace__common_dtype")
+
+
 def _on(ex):
     return getattr(ex.contract, "c14", False)
 
@@ -240,6 +244,9 @@ class C14Models:
             ex.assumed.add("numpy.linspace(a, b, n)[i] = a + (b - a) t(i, n), t(i, n) (n - 1) = i (function np_linspace_t; its bounds and end points are "
                            "proved from this definition in LinspaceLemmas)")
             return _np.new(ex, "f", (n,), _np.lam(1, lambda i: z3.If(n == 1, a, a + (b - a) * lin_t(i, n))))
+        if name == "numpy.apply_along_axis" and len(args) == 1 and kwargs.get("axis") == 1 and _is_arr(ex, kwargs.get("arr")) and isinstance(args[0], BoundMethod) \
+                and args[0].finfo is not None and args[0].finfo.qualname.endswith("DesignSpace.transform_vect") and isinstance(args[0].recv, Ref):
+            return self._transform_rows(ex, args[0].recv, _arr(ex, kwargs["arr"]))
         if name == "numpy.hstack" and len(args) == 1 and not kwargs and isinstance(args[0], Ref) and isinstance(st.heap[args[0].id], ListObj) \
                 and isinstance(st.heap[args[0].id].t, TArr):
             L = st.heap[args[0].id]
@@ -248,6 +255,32 @@ class C14Models:
                 return self._hstack_vectors(ex, L, ta)
             return self._hstack_columns(ex, L, ta, lineno)
         return NotImplemented
+
+    def _transform_rows(self, ex, ds, A):
+        """apply_along_axis(design_space.transform_vect, axis=1, arr=A): row r of the result is transform_vect(row r of A), an uninterpreted
+        function of the design-space state (flag, variables, policies) and the row; the call may refresh the cached normalisation data."""
+        from . import contract as C
+        from .values import type_of_value
+
+        st = ex.st
+        if A.rank != 2 or A.kind != "f":
+            raise Unsupported("apply_along_axis on a non-matrix")
+        o = st.heap[ds.id]
+        sch = C.class_schema(getattr(o, "schema_key", None) or o.cls)
+        vt, nt = type_of_value(st, o.fields["_variables"]), type_of_value(st, o.fields["normalize"])
+        state = (o.fields["_DesignSpace__normalize_integer_variables"].term, vt.embed(st, o.fields["_variables"]), nt.embed(st, o.fields["normalize"]))
+        for f in NUM_CACHE_FIELDS:
+            if f in sch:
+                o.fields[f] = sch[f].fresh(st, f"design_space.{f}")
+        f1 = TArr("f", 1)
+        tv = z3.Function("c14_transform_vect", z3.BoolSort(), vt.sort(), nt.sort(), f1.sort(), f1.sort())
+        R = st.fresh_const("rowsel", arr_sort("f", 2))
+        r, i = z3.Int("r!tr"), z3.Int("i!tr")
+        row = lambda els, t: f1.dt.mk(A.shape[1], z3.Lambda([i], z3.Select(els, t, i)))  # noqa: E731
+        st.assume(z3.ForAll([r], z3.Implies(z3.And(0 <= r, r < A.shape[0]), row(R, r) == tv(*state, row(A.elems, r)))))
+        ex.assumed.add("numpy.apply_along_axis(design_space.transform_vect, 1, A): row r of the result is transform_vect(row r of A), a deterministic "
+                       "length-preserving function (c14_transform_vect) of the design-space state and the row; only the cached normalisation data may change")
+        return _np.new(ex, "f", A.shape, R)
 
     def _hstack_vectors(self, ex, L, ta):
         st = ex.st
